@@ -132,4 +132,7 @@ def stages(tier, rng, only=None):
         out.append(Stage("grid4x2", "Trace_Dataset", datarun.run_eq, lambda: pair_cases(grids.datasets(4, 2)[::5], rng),
                          _nt, datarun.init))
     out += extras_common.c17_stages(tier, rng)      # specified behaviour outside the listed properties (drift only)
+    out.append(ac.wide_eq_stage("permutations_16_plus", lambda: ac.wide_eq_cases(
+        rng, 60 if tier == "quick" else 600, (16, 17, 32, 40, 64, 100))))
+    out.append(ac.wide_eq_stage("wide_1000", lambda: ac.wide_eq_cases(rng, 8 if tier == "quick" else 60, (1001, 1004, 1030))))
     return [s for s in out if not only or s.name == only]
